@@ -83,7 +83,18 @@ def gen_sunearth(seed, shard, n):
         ref = float(C.mean_obliquity(Epoch(yy, mm, dd)))
         if 1 <= yy <= 9999 and dd == int(dd):
             forms.append(float(C.mean_obliquity(datetime.date(yy, mm, int(dd)))))
-        yield {"k": "obl", "yf": y, "tf": t, "T": fx((t - J2000) / 36525.0), "e0": fx(ref), "et": fx(float(C.true_obliquity(Epoch(yy, mm, dd)))),
+        hh, mi, ss = rng.randrange(24), rng.randrange(60), rng.uniform(0, 59)
+        sums = []
+        tforms = [(yy, mm, dd), (yy, mm, int(dd), hh, mi, ss), ((yy, mm, int(dd), hh, mi, ss),), ([yy, mm, int(dd), hh, mi, ss],),
+                  (Epoch(yy, mm, int(dd), hh, mi, ss),)]
+        if 1 <= yy <= 9999:
+            tforms.append((datetime.datetime(yy, mm, int(dd), hh, mi, int(ss)),))
+        for args in tforms:
+            try:
+                sums.append([fx(float(C.mean_obliquity(*args))), fx(float(C.nutation_obliquity(*args))), fx(float(C.true_obliquity(*args)))])
+            except Exception:
+                sums.append([fx(-999.0), fx(0.0), fx(0.0)])
+        yield {"k": "obl", "sums": sums, "yf": y, "tf": t, "T": fx((t - J2000) / 36525.0), "e0": fx(ref), "et": fx(float(C.true_obliquity(Epoch(yy, mm, dd)))),
                "dpsi": fx(float(C.nutation_longitude(Epoch(yy, mm, dd)))), "deps": fx(float(C.nutation_obliquity(Epoch(yy, mm, dd)))),
                "sO": fx(math.sin(math.radians(float(Moon.longitude_mean_ascending_node(Epoch(yy, mm, dd)))))),
                "cO": fx(math.cos(math.radians(float(Moon.longitude_mean_ascending_node(Epoch(yy, mm, dd)))))),
